@@ -1201,12 +1201,25 @@ func (m *Machine) call(x *ssa.Call, state map[string]Vec) {
 			}
 		}
 		if okRes && len(res) == w {
-			m.setEnv(x, res)
-			return
+			hasTop := false
+			for _, b := range res {
+				if b.K == Top {
+					hasTop = true
+				}
+			}
+			if !hasTop {
+				m.setEnv(x, res)
+				return
+			}
 		}
 	}
 	if w > 0 {
-		m.setEnv(x, topVec(w))
+		// an opaque integer result is a named input: later bit selections of it stay visible
+		if callee != nil {
+			m.setEnv(x, srcVec("call:"+callee.Name(), w))
+		} else {
+			m.setEnv(x, topVec(w))
+		}
 	}
 }
 
